@@ -96,7 +96,9 @@ def run(ctx, prop, relevant):
     design_neg = {}
     if not q:
         # non-vacuity of the design invariants: with one repair switched off TLC must find the corresponding defect
-        for sw in ("Collector", "Pinned", "Keep", "Dangling"):
+        drift = tlc_mc(ctx, "PoolDesign", "PoolDesign_drift.cfg", timeout=3000)      # remote removal + periodic sync + address re-use
+        design_neg["drift_states"] = drift.distinct
+        for sw in ("Collector", "Pinned", "Keep", "Dangling", "ABA"):
             r = tlc(ctx, "PoolDesign", cfg="PoolDesign_no%s.cfg" % sw, timeout=1200, workers=8)
             design_neg[sw] = r.inv_violated
             if not r.inv_violated:
